@@ -312,6 +312,13 @@ class _Expr(ast.NodeTransformer):
         self.generic_visit(node)
         return self._pair_target(node)
 
+    def visit_IfExp(self, node):
+        self.generic_visit(node)
+        # a conditional expression on a literal truth value (a flag parameter of an inlined helper)
+        if isinstance(node.test, ast.Constant) and isinstance(node.test.value, bool):
+            return node.body if node.test.value else node.orelse
+        return node
+
     def visit_BinOp(self, node):
         self.generic_visit(node)
         if isinstance(node.op, ast.Add) and isinstance(node.left, ast.Constant) and isinstance(node.right, ast.Constant) \
